@@ -330,15 +330,12 @@ impl FileSpec {
             } else {
                 restart_siblings.sort_unstable();
                 let new_path = restart_siblings.pop().unwrap(/*ok*/);
-                let file_stem_string = if self.o_suffix.is_some() {
-                    new_path
-                    .file_stem().unwrap(/*ok*/)
-                    .to_string_lossy().to_string()
-                } else {
-                    new_path.to_string_lossy().to_string()
-                };
-                let index = file_stem_string.find(".restart-").unwrap(/*ok*/);
-                file_stem_string[(index + 9)..(index + 13)].parse::<usize>().unwrap(/*ok*/) + 1
+                // look at the file name, which is what the filter above has examined
+                let file_name_string = new_path
+                    .file_name().unwrap(/*ok*/)
+                    .to_string_lossy().to_string();
+                let index = file_name_string.find(".restart-").unwrap(/*ok*/);
+                file_name_string[(index + 9)..(index + 13)].parse::<usize>().unwrap(/*ok*/) + 1
             };
 
             infix.to_string().add(&format!(".restart-{next_number:04}"))
